@@ -49,6 +49,18 @@ def gen_cases_raw(ctx):
         s2 = [float(k) for k in range(n1 + 150) if k not in drops]
         yield {"kind": "grid", "s1": s1, "s2": s2, "md": 1.0, "off": 0.0, "corpus": "long-contested"}
         yield {"kind": "grid", "s1": s2, "s2": s1, "md": 1.0, "off": 0.0, "corpus": "long-contested-swapped"}
+    # near misses of max_diff: |t1 - (t2 + offset)| = max_diff -/+ a relative 2^-18 .. 2^-30 (dyadic: every operation exact);
+    # a pair is formed iff the difference is <= max_diff, exactly (no isclose-style slack)
+    for k in range(24):
+        md = r.choice([0.5, 0.25, 1.0, 0.0078125])
+        eps = md * 2.0 ** -r.choice([18, 22, 26, 30])
+        n = r.randint(2, 7)
+        s1 = [4.0 * j for j in range(n)]
+        s2 = [t + r.choice([md - eps, md + eps, md, -md - eps, -md + eps, md / 2]) for t in s1]
+        if k % 3 == 0:
+            s2 = s2 + [s2[-1] + 4.0]
+        off = r.choice([0.0, 0.0, 0.5, -1.0])
+        yield {"kind": "grid", "s1": s1, "s2": [t - off for t in s2], "md": md, "off": off, "corpus": "max-diff-near-miss"}
     for n1 in (1, 2, 3, 4, 5, 7, 8, 9, 15, 16, 17, 31, 32, 33, 63, 64, 65):
         n2 = r.choice([n1, n1 + 1, max(1, n1 - 1), 2 * n1])
         yield {"kind": "grid", "s1": [k / 2 for k in range(n1)], "s2": [k / 2 + 0.125 for k in range(n2)],
